@@ -22,6 +22,10 @@ def check(ctx: Ctx):
     ctx.explain("DIM abstract interpretation of get_structure_factor (units length/amplitude/count and coordinate-vs-length typing) and the structural rules RAWDATA, INDEXAGREE, PASS, ADDZERO.")
     spectrum.check_sf_units(ctx)
     spectrum.check_sf_structure(ctx)
+    from ..rules import purity
+
+    purity.check_stateless(ctx, ["droplets.image_analysis.get_structure_factor"])
+    ctx.expect("STATELESS", 1)
     ctx.expect("DIM", 3)
     ctx.expect("RAWDATA", 4)
     ctx.expect("INDEXAGREE", 2)
